@@ -99,10 +99,12 @@ type H struct {
 	viol   int
 	reported map[string]int
 	real     bool // real ts-store shards behind the nodes
+	tag      string // "" or "@1 ": which replica group of the run this is (two groups can share the nodes)
+	twin     *H     // the other replica group on the same nodes
 	nontrivial bool
 }
 
-func (h *H) emit(op string) int { return h.c.Emit(op, "ok") }
+func (h *H) emit(op string) int { return h.c.Emit(h.tag+op, "ok") }
 
 func (h *H) fail(format string, a ...any) {
 	if h.err == nil {
@@ -717,7 +719,7 @@ func (h *H) after(action string) {
 	if h.err != nil {
 		return
 	}
-	line := h.c.Emit(h.digestOp(), h.digest())
+	line := h.c.Emit(h.tag+h.digestOp(), h.digest())
 	h.check(line)
 }
 
@@ -914,8 +916,16 @@ func (h *H) restart(n int, late bool) {
 		if h.leader >= 0 && h.mir[h.leader].up {
 			_ = h.cl.tickNode(h.leader, 3)
 		}
-		waitFor(300*time.Millisecond, func() bool { return atomic.LoadInt64(&x.st.applied) > 0 })
-		raced = atomic.LoadInt64(&x.st.applied) > 0
+		replayOver := func() bool {
+			select {
+			case <-x.replayDone:
+				return true // nothing to replay (or nothing that writes): the loop may run
+			default:
+				return false
+			}
+		}
+		waitFor(300*time.Millisecond, func() bool { return replayOver() || atomic.LoadInt64(&x.st.applied) > 0 })
+		raced = !replayOver() && atomic.LoadInt64(&x.st.applied) > 0
 		if !h.cl.releaseReplay(n) {
 			h.fail("replay of node %d does not end", n)
 			return
@@ -1065,7 +1075,7 @@ func (h *H) checkAvail(what, class string) {
 		f := h.cl.nodes[i].observe().first
 		for m := 0; m < h.n; m++ {
 			if h.mir[m].last+1 < f {
-				h.violation(h.c.Emit(h.digestOp(), h.digest()), class,
+				h.violation(h.c.Emit(h.tag+h.digestOp(), h.digest()), class,
 					fmt.Sprintf("after %s node %d keeps entries from %d on, member %d holds entries up to %d only | %s", what, i, f, m, h.mir[m].last, strings.Join(h.log, " ; ")))
 				return
 			}
@@ -1186,6 +1196,13 @@ func Run(c *hx.Ctx) error {
 		t0 := time.Now()
 		h.scenario(i)
 		h.shutdown()
+		if h.twin != nil {
+			h.twin.shutdown()
+			os.RemoveAll(h.twin.root)
+			if h.err == nil && h.twin.err != nil {
+				h.err = fmt.Errorf("group 1: %v | %s", h.twin.err, strings.Join(h.twin.log, " ; "))
+			}
+		}
 		if os.Getenv("C05_TIMING") != "" {
 			fmt.Fprintf(os.Stderr, "scenario %d %s nodes=%d: %v, %d actions\n", i, h.prof, h.n, time.Since(t0), len(h.log))
 		}
